@@ -905,3 +905,241 @@ Proof.
     apply in_app_or in X. apply in_or_app. destruct X as [X|X]; [left; apply in_or_app; left; exact X|right; exact X].
 Qed.
 End Bridge.
+
+(* ================================================================ 5. create_file with growth *)
+Section GrowThm.
+Variable upper : N -> list N.
+Variable oem : N -> N.
+
+(* what one call does, in terms of the slot layer and the allocator *)
+Definition GrowStep (im : image) (fi : fsinfo) (l : list N) (im' : image) (fi' : fsinfo) (l' news : list N) : Prop :=
+  let g := parse_geom im in
+  l' = l ++ news /\ GInv g im' fi' l' /\ NoDup news /\
+  (forall x, In x news -> 2 <= x < g_clusters g + 2 /\ fat_val g im x = FFree) /\
+  (forall x, 2 <= x < g_clusters g + 2 -> ~ In x news -> (news = [] \/ x <> last l 0) -> fat_val g im' x = fat_val g im x) /\
+  (forall a, ~ in_store_area g a -> (forall c, In c l' -> ~ in_cluster g c a) -> img_get im' a = img_get im a) /\
+  (news = [] -> forall a, (forall c, In c l -> ~ in_cluster g c a) -> img_get im' a = img_get im a) /\
+  count_free g im' + N.of_nat (length news) = count_free g im.
+
+Lemma grow_step_refl im fi l : GInv (parse_geom im) im fi l -> GrowStep im fi l im fi l [].
+Proof.
+  intros HI. unfold GrowStep. cbv zeta. rewrite app_nil_r. cbn [length N.of_nat].
+  split; [reflexivity|]. split; [exact HI|]. split; [constructor|]. split; [intros x []|].
+  split; [reflexivity|]. split; [reflexivity|]. split; [reflexivity|]. lia.
+Qed.
+
+Theorem grow_create_unfold im fi l name now r im' fi' l' :
+  let g := parse_geom im in
+  chain_geom g -> GInv g im fi l -> chain_small g l -> TimeProofs.datetime_valid now = true ->
+  vol_create_file_grow upper oem im fi l name now = (r, (im', fi', l')) ->
+  exists news,
+    GrowStep im fi l im' fi' l' news /\
+    create_entry upper oem false (Chained (cluster_slots g)) (length news) (chain_dir_slots g im l) name 0 None now false
+      = (r, chain_dir_slots g im' l') /\
+    (* NotEnoughSpace behind a passed existence check comes from the allocator alone: no cluster is free *)
+    (forall a, check_for_existence upper oem (chain_dir_slots g im l) name (Some false) = Ok (Fresh a) -> r = Err ENotEnoughSpace ->
+       forall x, 2 <= x < g_clusters g + 2 -> fat_val g im' x <> FFree).
+Proof.
+  intros g Hg HI Hsm Hnow H. unfold vol_create_file_grow in H. fold g in H. rewrite (is_fat32_fixed im (proj1 Hg)) in H.
+  set (ss := chain_dir_slots g im l) in *.
+  assert (forall (x : res (option (N * N))),
+            (x, (im, fi, l)) = (r, (im', fi', l')) -> create_entry upper oem false (Chained (cluster_slots g)) 0 ss name 0 None now false = (x, ss) ->
+            (forall a, check_for_existence upper oem ss name (Some false) <> Ok (Fresh a)) ->
+            exists news, GrowStep im fi l im' fi' l' news /\
+              create_entry upper oem false (Chained (cluster_slots g)) (length news) ss name 0 None now false = (r, chain_dir_slots g im' l') /\
+              (forall a, check_for_existence upper oem ss name (Some false) = Ok (Fresh a) -> r = Err ENotEnoughSpace ->
+                 forall x, 2 <= x < g_clusters g + 2 -> fat_val g im' x <> FFree)) as Same.
+  { intros x E C Hx. injection E as <- <- <- <-. exists []. split; [exact (grow_step_refl im fi l HI)|]. split; [exact C|].
+    intros a Ha. exfalso. exact (Hx a Ha). }
+  unfold create_entry in Same |- *. unfold glift, lift in *.
+  destruct (check_for_existence upper oem ss name (Some false)) as [[ev|a]| | |] eqn:C;
+    try (apply (Same _ H eq_refl); intros a0; discriminate).
+  destruct (check_fresh_inv _ _ _ _ _ _ C) as (V & HL & _).
+  destruct (stamp_create_ok now Hnow) as [st ST]. rewrite ST in *.
+  set (e := create_sfn_entry false a 0 None st) in *.
+  pose proof (create_sfn_entry_live false a 0 None st HL ltac:(lia) eq_refl (stamp_create_ranges now st Hnow ST)) as Hlive. fold e in Hlive.
+  unfold vol_write_entry_grow, write_entry, glift, lift in *. rewrite V in *.
+  destruct (chain_dir_shape g im l Hg) as [[Lss _] _]. fold ss in Lss.
+  destruct (find_free_entries_spec (Chained (cluster_slots g)) ss (len_N (entry_run name e)) (proj1 (entry_run_len name e))
+              (chain_len_bound g im l Hg Hsm)) as (p & pre & mid & post & S & Ef).
+  cbn [is_fixed andb] in Ef. fold ss in H. rewrite Ef in *.
+  destruct (vol_write_run g im fi l (N.to_nat p) (entry_run name e)) as [w [[im2 fi2] l2]] eqn:W.
+  cbv beta iota zeta in H. injection H as <- <- <- <-.
+  assert (N.to_nat p <= cluster_slots g * length l)%nat as Hp.
+  { destruct S as [S1 S2 _ _ _]. rewrite <- Lss, S1, app_length. unfold len_N in S2. lia. }
+  destruct (vol_write_run_refines g Hg _ im fi l _ w im2 fi2 l2 HI Hp
+              (entry_run_len32 name e (sfn_legal_len a HL)) (entry_run_lt name e (sl_fields e Hlive) (sfn_legal_lt a HL)) W)
+    as (news & E1 & HI' & Nn & Hfree & Hfat & Hfr & Hfr0 & Hcnt & Hwr & Hr).
+  exists news. split; [unfold GrowStep; cbv zeta; fold g; repeat (split; [assumption|]); exact Hcnt|].
+  fold ss in Hwr. rewrite Hwr. split; [destruct w as [[]| | |]; reflexivity|].
+  intros _ _ E. destruct Hr as [->|[-> Hfull]]; [discriminate|exact Hfull].
+Qed.
+End GrowThm.
+
+(* ---- the dot-entry clause looks at the first two children only, and they occupy slots 0 and 1 *)
+Lemma dot_issues_two dc pc n1 n2 r r' : dot_issues dc pc (n1 :: n2 :: r) = dot_issues dc pc (n1 :: n2 :: r').
+Proof. destruct n1, n2; reflexivity. Qed.
+
+Lemma dot_issues_nil_inv dc pc ns : dot_issues dc pc ns = [] ->
+  exists d1 d2 r, ns = NDot d1 :: NDot d2 :: r /\ e_sfn_slot d1 = 0 /\ e_sfn_slot d2 = 1.
+Proof.
+  unfold dot_issues. destruct ns as [|n1 rest]; [discriminate|]. destruct n1 as [| |d1]; try discriminate.
+  destruct (list_eqb (e_sfn d1) DOT && (e_cluster d1 =? dc) && e_is_dir d1 && (e_sfn_slot d1 =? 0)) eqn:B1; [|discriminate].
+  cbn [app]. destruct rest as [|n2 r]; [discriminate|]. destruct n2 as [| |d2]; try discriminate.
+  destruct (list_eqb (e_sfn d2) DOTDOT && (e_cluster d2 =? pc) && e_is_dir d2 && (e_sfn_slot d2 =? 1)) eqn:B2; [|discriminate].
+  intros _. exists d1, d2, r. split; [reflexivity|].
+  apply andb_true_iff in B1. destruct B1 as [_ B1]. apply andb_true_iff in B2. destruct B2 as [_ B2].
+  apply N.eqb_eq in B1. apply N.eqb_eq in B2. split; assumption.
+Qed.
+
+Lemma dot_issues_insert g im dc pc ss' es1 ne es2 labels iss :
+  dot_issues dc pc (map (node_of g im 22) (es1 ++ es2)) = [] ->
+  dir_scan ss' 0 [] false = (es1 ++ ne :: es2, labels, iss) ->
+  dot_issues dc pc (map (node_of g im 22) (es1 ++ ne :: es2)) = [].
+Proof.
+  intros H Hs. destruct (dot_issues_nil_inv dc pc _ H) as (d1 & d2 & r & E & S1 & S2).
+  destruct (scan_slots_sorted false ss' 0 [] _ _ _ Hs) as [_ Hsorted].
+  assert (forall e d, node_of g im 22 e = NDot d -> d = e) as Hent.
+  { intros e d He. rewrite <- (node_entry_of g im 22 e), He. reflexivity. }
+  destruct es1 as [|e1 es1].
+  - exfalso. cbn [app map] in E. destruct es2 as [|e1 es2]; [discriminate|]. cbn [map] in E. injection E as E1 _.
+    pose proof (Hsorted [] ne (e1 :: es2) eq_refl) as F. inversion F as [|? ? F1 _]; subst.
+    rewrite (Hent e1 d1 E1) in S1. lia.
+  - destruct es1 as [|e2 es1].
+    + exfalso. cbn [app map] in E. destruct es2 as [|e2 es2]; [discriminate|]. cbn [map] in E. injection E as E1 E2 _.
+      pose proof (Hsorted [e1] ne (e2 :: es2) eq_refl) as F. inversion F as [|? ? F1 _]; subst.
+      pose proof (Hsorted [] e1 (ne :: e2 :: es2) eq_refl) as G. inversion G as [|? ? G1 _]; subst.
+      rewrite (Hent e1 d1 E1) in S1. rewrite (Hent e2 d2 E2) in S2. lia.
+    + cbn [app map] in H |- *. rewrite (dot_issues_two dc pc _ _ _ (map (node_of g im 22) (es1 ++ es2))). exact H.
+Qed.
+
+Section GrowMain.
+Variable upper : N -> list N.
+Variable oem : N -> N.
+Variable fold : list N -> list N.
+
+(* the premises give the facts of section 4 and the state invariant of section 3 *)
+Lemma grow_premises im fi l ra ed children labels rb :
+  let g := parse_geom im in
+  chain_geom g -> FatProofs.bytes_ok im -> fi_inv fstore (val_ft (ft_of g)) (store_of g im) fi (g_clusters g) ->
+  Wf.wf_issues fold im = [] -> v_root (abs im) = ra ++ NDir ed (Some l) children [] labels :: rb ->
+  GInv g im fi l /\ exists es ls ea eb ces, DirFacts fold im ra ed l children labels rb es ls ea eb ces.
+Proof.
+  intros g Hg Hb Hfi Hwf Hroot.
+  destruct (wf_dir_facts fold im ra ed l children labels rb (proj1 Hg) Hwf Hroot) as (es & ls & ea & eb & ces & DF).
+  split; [|exists es, ls, ea, eb, ces; exact DF].
+  destruct (chain_from_linked g im _ _ _ (df_chain _ _ _ _ _ _ _ _ _ _ _ _ _ DF)) as [L _].
+  split; [exact Hb|exact Hfi| |exact L]. split.
+  - pose proof (df_nodup _ _ _ _ _ _ _ _ _ _ _ _ _ DF) as Nd.
+    destruct (FileProofs.NoDup_app_parts _ _ Nd) as (_ & N2 & _). destruct (FileProofs.NoDup_app_parts _ _ N2) as (N3 & _ & _).
+    destruct (FileProofs.NoDup_app_parts _ _ N3) as (N4 & _ & _). exact N4.
+  - apply Forall_forall. intros x Hx. exact (proj1 (linked_in g im l x L Hx)).
+Qed.
+
+(* THE SUCCESS THEOREM.  A well-formed FAT12/16 volume whose root holds a directory with chain [l]; create_file(name) in that
+   directory made a new entry.  (a) chain: the old chain plus the clusters [news] (none, one or two), pairwise distinct, free before;
+   (b) tree: exactly one node - a plain empty file carrying the name - inserted among the children of that directory, every other
+   node of the volume as decoded before; (c) every FAT entry outside [news] and the old last cluster, every byte outside the FAT
+   copies and the clusters of the new chain, every data cluster outside the new chain as before; (d) count_free drops by exactly
+   length news; (e) the volume is still well formed and every premise holds again. *)
+Theorem vol_grow_create_decodes im fi l name now range im' fi' l' ra ed children labels rb :
+  let g := parse_geom im in
+  fold_agrees upper fold ->
+  chain_geom g -> FatProofs.bytes_ok im -> fi_inv fstore (val_ft (ft_of g)) (store_of g im) fi (g_clusters g) ->
+  Wf.wf_issues fold im = [] -> v_root (abs im) = ra ++ NDir ed (Some l) children [] labels :: rb ->
+  chain_small g l -> lfns_ok (map e_lfn (map node_entry children)) -> str_valid name = true ->
+  TimeProofs.datetime_valid now = true ->
+  vol_create_file_grow upper oem im fi l name now = (Ok (Some range), (im', fi', l')) ->
+  exists news c1 c2 ne st,
+    l' = l ++ news /\ NoDup news /\
+    (forall x, In x news -> 2 <= x < g_clusters g + 2 /\ fat_val g im x = FFree /\ ~ In x l) /\
+    children = c1 ++ c2 /\
+    v_root (abs im') = ra ++ NDir ed (Some l') (c1 ++ NFile ne None [] :: c2) [] labels :: rb /\
+    e_lfn ne = (if is_dot_name name then [] else utf16_encode name) /\ e_lfn_ok ne = true /\
+    e_size ne = 0 /\ e_cluster ne = 0 /\ e_attr ne = 0 /\ e_ntres ne = 0 /\
+    stamp_create now = Ok st /\
+    e_ctime_ms ne = create_time_0 st /\ e_ctime ne = create_time_1 st /\ e_cdate ne = create_date st /\
+    e_adate ne = access_date st /\ e_mtime ne = modify_time st /\ e_mdate ne = modify_date st /\
+    e_first_slot ne = fst range /\ e_sfn_slot ne + 1 = snd range /\
+    sfn_legal_b (e_sfn ne) = true /\ ~ In (e_sfn ne) (map e_sfn (map node_entry children)) /\
+    v_root_issues (abs im') = v_root_issues (abs im) /\ v_labels (abs im') = v_labels (abs im) /\
+    v_geom (abs im') = v_geom (abs im) /\ v_status (abs im') = v_status (abs im) /\
+    (forall x, 2 <= x < g_clusters g + 2 -> ~ In x news -> (news = [] \/ x <> last l 0) -> fat_val g im' x = fat_val g im x) /\
+    (forall a, ~ in_store_area g a -> (forall c, In c l' -> ~ in_cluster g c a) -> img_get im' a = img_get im a) /\
+    (news = [] -> forall a, (forall c, In c l -> ~ in_cluster g c a) -> img_get im' a = img_get im a) /\
+    (forall c, 2 <= c < g_clusters g + 2 -> ~ In c l' -> cluster_bytes g im' c = cluster_bytes g im c) /\
+    count_free g im' + N.of_nat (length news) = count_free g im /\
+    Wf.wf_issues fold im' = [] /\
+    parse_geom im' = g /\ FatProofs.bytes_ok im' /\ fi_inv fstore (val_ft (ft_of g)) (store_of g im') fi' (g_clusters g) /\
+    lfns_ok (map e_lfn (map node_entry (c1 ++ NFile ne None [] :: c2))).
+Proof.
+  intros g FA Hg Hb Hfi Hwf Hroot Hsm Hok Hv Hnow H.
+  destruct (grow_premises im fi l ra ed children labels rb Hg Hb Hfi Hwf Hroot) as [HI (es & ls & ea & eb & ces & DF)]. fold g in HI.
+  destruct (grow_create_unfold upper oem im fi l name now _ im' fi' l' Hg HI Hsm Hnow H) as (news & GS & CE & _). fold g in CE.
+  destruct GS as (E1 & HI' & Nn & Hfree & Hfat & Hfr & Hfr0 & Hcnt). fold g in E1, HI', Hfree, Hfat, Hfr, Hfr0, Hcnt.
+  pose proof (df_cscan _ _ _ _ _ _ _ _ _ _ _ _ _ DF) as Sc. fold g in Sc.
+  destruct (create_entry_full upper oem (Chained (cluster_slots g)) (length news) _ name 0 None now false ces labels range _ Sc
+              (chain_len_bound g im l Hg Hsm) ltac:(lia) eq_refl Hnow CE)
+    as (es1 & es2 & ne & a & st & X1 & X2 & XC & ST & X3 & X4 & X5 & HL & HU & X6 & X7 & X8 & X9 & T1 & T2 & T3 & T4 & T5 & T6 & P1 & P2 & _).
+  subst l'. destruct HI' as [Hb' Hfi' Hck' Hlk'].
+  assert (e_is_dot ne = false /\ e_is_dir ne = false /\ e_cluster ne = 0) as (Nd1 & Nd2 & Nd3).
+  { split; [unfold e_is_dot; rewrite X5; destruct (sfn_legal_not_dot a HL) as [-> ->]; reflexivity|].
+    split; [unfold e_is_dir; rewrite X6; reflexivity|rewrite X9; reflexivity]. }
+  assert (forall e, In e (es1 ++ ne :: es2) -> In e ces \/ (e_is_dot e = false /\ e_is_dir e = false /\ e_cluster e = 0)) as Hces'.
+  { intros e He. apply in_app_or in He. rewrite X1. destruct He as [He|[<-|He]]; [left; apply in_or_app; left; exact He| |left; apply in_or_app; right; exact He].
+    right. repeat split; assumption. }
+  destruct (bridge_abs fold im im' ra ed l children labels rb es ls ea eb ces Hg DF news Hfree Hfat Hfr Hlk' Hck' _ _ _ X2 Hces')
+    as (Habs' & Hroot' & Hstat).
+  fold g in Habs', Hroot', Hstat.
+  (* the children afterwards *)
+  set (c1 := map (node_of g im 22) es1). set (c2 := map (node_of g im 22) es2).
+  assert (children = c1 ++ c2) as Ech.
+  { rewrite (df_children _ _ _ _ _ _ _ _ _ _ _ _ _ DF). fold g. rewrite decode_entries_S, X1, map_app. reflexivity. }
+  assert (decode_entries g im 23 (es1 ++ ne :: es2) = c1 ++ NFile ne None [] :: c2) as Ech'.
+  { rewrite decode_entries_S, map_app. cbn [map]. rewrite (node_of_empty_file g im 22 ne Nd1 Nd2 Nd3). reflexivity. }
+  (* the clauses about the directory, before *)
+  pose proof (df_id _ _ _ _ _ _ _ _ _ _ _ _ _ DF) as Wd. fold g in Wd.
+  rewrite (node_issues_dir fold g 0 ed l children [] labels (df_cl _ _ _ _ _ _ _ _ _ _ _ _ _ DF)) in Wd. cbn [map app] in Wd.
+  apply app_eq_nil in Wd. destruct Wd as [Wdot Wd]. apply app_eq_nil in Wd. destruct Wd as [Wnames Wsub].
+  assert (map e_sfn (map node_entry (c1 ++ c2)) = map e_sfn ces) as Esfn.
+  { unfold c1, c2. rewrite <- map_app, map_node_entry, X1. reflexivity. }
+  assert (Wf.wf_issues fold im' = []) as Hwf'.
+  { rewrite (bridge_wf fold im im' ra ed l children labels rb es ls ea eb ces Hg DF news Nn Hfree Hfat Hfr Hlk' Hck' _ _ _ X2 Hces');
+      fold g; rewrite ?Ech'; [reflexivity| | | | |].
+    - rewrite <- Ech'. rewrite decode_entries_S. apply (dot_issues_insert g im (e_cluster ed) 0 (chain_dir_slots g im' (l ++ news)) es1 ne es2 labels []); [|exact X2].
+      rewrite map_app. fold c1 c2. rewrite <- Ech. exact Wdot.
+    - apply names_issues_dc. apply names_issues_insert.
+      + apply (names_issues_dc fold (e_cluster ed)). rewrite <- Ech. exact Wnames.
+      + rewrite Esfn, X5. exact HU.
+      + intros Hl. rewrite X3 in Hl |- *. destruct (is_dot_name name); [discriminate|].
+        assert (map e_lfn (map node_entry (c1 ++ c2)) = map e_lfn ces) as -> by (unfold c1, c2; rewrite <- map_app, map_node_entry, X1; reflexivity).
+        apply (fresh_not_among_folded upper oem fold false _ name (Some false) a ces labels [] FA Hv XC Sc).
+        rewrite Ech in Hok. unfold c1, c2 in Hok. rewrite <- map_app, map_node_entry, <- X1 in Hok. exact Hok.
+    - rewrite (nodes_issues_insert_pc fold g _ c1 c2 ne X8 Nd3), <- Ech. exact Wsub.
+    - rewrite nodes_chains_insert, Ech. reflexivity.
+    - intros d. rewrite depth_exceeded_insert, Ech. reflexivity. }
+  exists news, c1, c2, ne, st.
+  split; [reflexivity|]. split; [exact Nn|]. split.
+  { intros x Hx. destruct (Hfree x Hx) as [R F]. split; [exact R|]. split; [exact F|]. intros Hin.
+    destruct HI as [_ _ _ L]. exact (proj2 (linked_in g im l x L Hin) F). }
+  split; [exact Ech|]. split.
+  { rewrite Habs'. cbn [abs_fixed v_root]. rewrite Hroot', Ech'. reflexivity. }
+  rewrite X5. do 16 (split; [assumption|]).
+  split; [rewrite <- Esfn, <- Ech in HU; exact HU|].
+  rewrite Habs', (df_abs _ _ _ _ _ _ _ _ _ _ _ _ _ DF). fold g. cbn [abs_fixed v_root_issues v_labels v_geom v_status].
+  split; [reflexivity|]. split; [reflexivity|]. split; [reflexivity|]. split; [exact Hstat|].
+  split; [exact Hfat|]. split; [exact Hfr|]. split; [exact Hfr0|]. split.
+  { intros c Rc Hn. unfold cluster_bytes. apply VolDirProofs.img_read_ext. intros i Hi. apply Hfr.
+    - apply (in_cluster_not_store g (proj1 Hg) c); [lia|unfold in_cluster; lia].
+    - intros c' Hc' Hin. destruct Hck' as [_ Hr]. rewrite Forall_forall in Hr. specialize (Hr c' Hc').
+      apply (clusters_disjoint g c' c (g_cluster_off g c + N.of_nat i)); [lia|lia|intros ->; contradiction|exact Hin|unfold in_cluster; lia]. }
+  split; [exact Hcnt|]. split; [exact Hwf'|].
+  split. { apply parse_geom_low. intros o Ho. apply Hfr.
+           - intros Hs. pose proof (store_area_before_root g o (proj1 Hg) Hs). lia.
+           - intros c _. apply (root_not_cluster g c o (proj1 Hg)). pose proof (root_off_ge g (proj1 Hg)). lia. }
+  split; [exact Hb'|]. split; [exact Hfi'|].
+  unfold lfns_ok in *. rewrite Ech in Hok. rewrite !map_app in *. cbn [map node_entry]. apply Forall_app in Hok. destruct Hok as [O1 O2].
+  apply Forall_app. split; [exact O1|]. constructor; [|exact O2].
+  rewrite X3. destruct (is_dot_name name); [reflexivity|apply utf16_okb_encode; exact Hv].
+Qed.
+End GrowMain.
